@@ -81,6 +81,10 @@ def make_population(rng, i):
                      "definition_type": "statement", "definition": {"statement": "s%d" % k}}
         else:
             o = g.make(rng.choice(["domain-name", "ipv4-addr", "file", "url"]), "random", granular=False)
+        if rng.random() < 0.3 and "--" in o["id"] and kind != "marking":
+            t0, u0 = o["id"].split("--", 1)
+            o["id"] = t0 + "--" + u0.upper()          # upper-case hex digits are legal in identifiers
+            ctx_upper = True
         versioned = "modified" in o or kind in ("dict", "dict-spellings")
         nver = rng.choice([1, 2, 3, 4]) if versioned else 1
         deltas = [0]
